@@ -725,13 +725,22 @@ func buildFamilies(thorough bool, seed int64) []*family {
 	var fams []*family
 	sel := newGen(seed ^ 0x5eed) // seed-dependent choices of cells
 	weight := 1
+	classic, later := 0, 1000 // families added after the first release are numbered from 1000 so that the old ones keep their seeds
+	var addAt func(idx int, name string, gf func(*gen) []qspec)
 	add := func(name string, gf func(*gen) []qspec) {
-		idx := len(fams)
+		addAt(classic, name, gf)
+		classic++
+	}
+	addLater := func(name string, gf func(*gen) []qspec) {
+		addAt(later, name, gf)
+		later++
+	}
+	addAt = func(idx int, name string, gf func(*gen) []qspec) {
 		via := "direct"
 		if idx%2 == 1 {
 			via = "sequence"
 		}
-		fams = append(fams, &family{Name: name, Via: via, Lazy: idx%4 == 2, Seed: seed*1000003 + int64(idx)*7919 + 1, Gen: gf, Weight: weight})
+		fams = append(fams, &family{Name: name, Via: via, Lazy: idx%4 == 2, Seed: seed*1000003 + int64(idx)*7919 + 1, Gen: gf, Weight: weight, Idx: idx})
 	}
 	base := func(g *gen) []byte { return g.baseName() }
 	randCell := func() cell { return cell{sel.randType(), sel.randClass(), sel.rng.Intn(8)} }
@@ -782,6 +791,13 @@ func buildFamilies(thorough bool, seed int64) []*family {
 		c := randCell()
 		add(nf.n+"/"+c.String(), nf.f(c))
 	}
+	// names over the presentation-format dimension x all flag combinations (names2.go);
+	// three copies so that they pass through every dump/load mode (reload.go)
+	presCells := func(g *gen) []cell { return []cell{{1, 1, 0}, {g.randType(), g.randClass(), 0}} }
+	for _, k := range []string{"a", "b", "c"} {
+		addLater("name-presentation-lengths-x-flags/"+k, genNamePresentationFlags(presCells, 40))
+	}
+	addLater("long-name-variants-x-flags", genLongNameVariants)
 	if !thorough {
 		return fams
 	}
@@ -827,6 +843,10 @@ func buildFamilies(thorough bool, seed int64) []*family {
 		add(fmt.Sprintf("bypass#%d", k), genBypass)
 		add(fmt.Sprintf("noise-sharing#%d", k), genNoiseSharing)
 		add(fmt.Sprintf("flags-x-extra-section-layouts#%d", k), genFlagsExtraShapes)
+	}
+	for k := 0; k < 12; k++ {
+		addLater(fmt.Sprintf("name-presentation-lengths-x-flags#%d", k), genNamePresentationFlags(presCells, 200))
+		addLater(fmt.Sprintf("long-name-variants-x-flags#%d", k), genLongNameVariants)
 	}
 	return fams
 }
